@@ -235,6 +235,7 @@ pub fn run_plan(c: &mut Collector, o: &mut dyn Oracle, seed: u64, shard: u64, ns
         workload::castle_family(&mut all);
         workload::promo_family(&mut all);
         workload::extremal_family(&mut all);
+        workload::clock_terminal_family(&mut all);
         let mut rng = Rng::new(0xE7A5);
         workload::evasion_family(&mut rng, plan.evasion_cases, &mut all);
         for (i, cr) in all.into_iter().enumerate() {
